@@ -1,10 +1,267 @@
-(** C20 — proofs about the loader model (Model.v) against the specification
-    vocabulary (Spec.v). *)
-From HV Require Import Base.Prelude C20.Model C20.Spec.
+(** C20 — the property's sentences as corollaries of [load_meets_spec], and the
+    witnesses of the recorded findings. *)
+From HV Require Import Base.Prelude C20.Model C20.Spec C20.Facts C20.MergeProofs C20.ConvertProofs
+  C20.NodeAlg C20.TrieProofs C20.UnflattenProofs C20.EnvProofs C20.LoadProofs.
 From Coq Require Import Permutation.
-Open Scope string_scope.
+
+Definition perm_fun (sh : nat -> list (key * cfg) -> list (key * cfg)) : Prop :=
+  forall site l, Permutation (sh site l) l.
+
+(** the property's domain for one load, outside the shapes of the open findings *)
+Definition domain (to_real : string -> cfg) (pfx : string) (d f : list (key * cfg))
+           (env : list (string * string)) (tenv : list (path * string)) : Prop :=
+  typed_env to_real (norm_env pfx env) = Some tenv /\ in_scope d f tenv /\
+  guard_F3 (norm_env pfx env) = false /\ guard_F4 (norm_env pfx env) = false.
+
+(* ------------------------------------------------------------------ permutations of the environment *)
+
+Lemma norm_env_perm pfx env env' : Permutation env env' -> Permutation (norm_env pfx env) (norm_env pfx env').
+Proof.
+  intro P. unfold norm_env. apply Permutation_map.
+  induction P; simpl.
+  - constructor.
+  - destruct (prefix pfx (fst x)); [constructor|]; assumption.
+  - destruct (prefix pfx (fst x)), (prefix pfx (fst y)); try apply Permutation_refl. apply perm_swap.
+  - eapply Permutation_trans; eassumption.
+Qed.
+
+Lemma typed_env_intro to_real ne :
+  Forall (fun nv => (exists w, to_real (snd nv) = Leaf w) /\ Forall seg_ok (split_dot (fst nv))) ne ->
+  typed_env to_real ne = Some (map (tof to_real) ne).
+Proof.
+  induction ne as [|[nk val] r IH]; intro H; simpl; [reflexivity|].
+  apply Forall_cons_iff in H as [[[w Hw] Hok] HR]. simpl in Hw, Hok.
+  rewrite Hw. simpl. rewrite (IH HR).
+  rewrite (proj2 (parts_ok_iff _) Hok). unfold tof at 2. simpl. rewrite Hw. reflexivity.
+Qed.
+
+Lemma typed_env_perm to_real ne ne' tenv :
+  typed_env to_real ne = Some tenv -> Permutation ne ne' ->
+  exists tenv', typed_env to_real ne' = Some tenv' /\ Permutation tenv tenv'.
+Proof.
+  intros H P. destruct (typed_env_map to_real _ _ H) as [-> HF].
+  exists (map (tof to_real) ne'). split.
+  - apply typed_env_intro. eapply Permutation_Forall; eassumption.
+  - apply Permutation_map. assumption.
+Qed.
+
+Lemma kc_rel_sym (a b : path * string) :
+  (forall p, kcompat (contrib p a) (contrib p b) = true) -> forall p, kcompat (contrib p b) (contrib p a) = true.
+Proof. intros H p. rewrite kcompat_sym. apply H. Qed.
+
+Lemma in_scope_perm d f tenv tenv' : Permutation tenv tenv' -> in_scope d f tenv -> in_scope d f tenv'.
+Proof.
+  intros P (Td & Tf & ND & C1 & C2 & C3). unfold in_scope. splits; auto.
+  - eapply Permutation_NoDup; [apply Permutation_map; exact P | exact ND].
+  - eapply Permutation_Forall; eassumption.
+  - eapply PW_perm; [exact kc_rel_sym | exact P | exact C3].
+Qed.
+
+Lemma PW_pairwise {A} (f : A -> A -> bool) l : PW (fun a b => f a b = true) l -> pairwise f l = true.
+Proof.
+  induction 1; simpl; [reflexivity|]. apply andb_true_iff. split; [|assumption].
+  apply forallb_forall. rewrite Forall_forall in H. assumption.
+Qed.
+
+Definition f3_pair (a b : string * string) : bool :=
+  let pa := split_dot (fst a) in
+  let pb := split_dot (fst b) in
+  negb (has_index pa && has_index pb &&
+        segs_eqb (name_prefix pa) (name_prefix pb) &&
+        (2 <=? length (name_prefix pa)) &&
+        negb (String.eqb (fst a) (fst b) && String.eqb (snd a) (snd b))).
+
+Lemma f3_pair_sym a b : f3_pair a b = f3_pair b a.
+Proof.
+  unfold f3_pair. f_equal.
+  rewrite (String.eqb_sym (fst a) (fst b)), (String.eqb_sym (snd a) (snd b)).
+  rewrite (andb_comm (has_index (split_dot (fst a)))).
+  destruct (segs_eqb (name_prefix (split_dot (fst a))) (name_prefix (split_dot (fst b)))) eqn:E.
+  - apply segs_eqb_eq in E. rewrite E. rewrite (proj2 (segs_eqb_eq _ _) eq_refl). reflexivity.
+  - rewrite TrieProofs.segs_eqb_sym in E. rewrite E. rewrite !andb_false_r. reflexivity.
+Qed.
+
+Lemma guard_F3_perm ne ne' : Permutation ne ne' -> guard_F3 ne = false -> guard_F3 ne' = false.
+Proof.
+  intros P H. unfold guard_F3 in *. change (negb (pairwise f3_pair ne) = false) in H.
+  change (negb (pairwise f3_pair ne') = false).
+  apply negb_false_iff in H. apply negb_false_iff. apply pairwise_PW in H. apply PW_pairwise.
+  eapply PW_perm; [|exact P|exact H]. intros x y E. rewrite f3_pair_sym. assumption.
+Qed.
+
+Lemma guard_F4_perm ne ne' : Permutation ne ne' -> guard_F4 ne = false -> guard_F4 ne' = false.
+Proof.
+  intros P H. unfold guard_F4 in *.
+  destruct (existsb (fun a => flat_after_index (split_dot (fst a))) ne') eqn:E; [|reflexivity].
+  apply existsb_exists in E as (x & Hin & Hx).
+  assert (X : existsb (fun a => flat_after_index (split_dot (fst a))) ne = true).
+  { apply existsb_exists. exists x. split; [|assumption]. eapply Permutation_in; [apply Permutation_sym; exact P | exact Hin]. }
+  congruence.
+Qed.
+
+Lemma domain_perm to_real pfx d f env env' tenv :
+  Permutation env env' -> domain to_real pfx d f env tenv ->
+  exists tenv', Permutation tenv tenv' /\ domain to_real pfx d f env' tenv'.
+Proof.
+  intros P (H1 & H2 & H3 & H4).
+  assert (Pn := norm_env_perm pfx env env' P).
+  destruct (typed_env_perm to_real _ _ _ H1 Pn) as (tenv' & Ht & Pt).
+  exists tenv'. split; [assumption|]. unfold domain. splits; auto.
+  - eapply in_scope_perm; eassumption.
+  - eapply guard_F3_perm; eassumption.
+  - eapply guard_F4_perm; eassumption.
+Qed.
+
+Lemma in_scope_nc d f tenv p : in_scope d f tenv -> PW nc (map (contrib p) tenv).
+Proof.
+  intros (_ & _ & ND & _ & _ & HP).
+  assert (X : PW (fun a b : path * string => fst a <> fst b) tenv).
+  { apply PW_map_inv with (f := fst) (R := fun a b => a <> b). apply PW_NoDup_neq. assumption. }
+  apply PW_map. eapply PW_impl; [|exact (PW_and _ _ _ HP X)].
+  intros a b [H1 H2]. simpl in *. split; [apply H1|].
+  destruct (contrib p a) eqn:Ca; simpl; try reflexivity.
+  destruct (contrib p b) eqn:Cb; simpl; try reflexivity.
+  apply contrib_leaf_path in Ca. apply contrib_leaf_path in Cb. congruence.
+Qed.
+
+Lemma env_view_perm d f tenv tenv' p :
+  in_scope d f tenv -> Permutation tenv tenv' -> env_view tenv p = env_view tenv' p.
+Proof.
+  intros S P.
+  assert (N := in_scope_nc d f tenv p S).
+  assert (N' := in_scope_nc d f tenv' p (in_scope_perm _ _ _ _ P S)).
+  rewrite !env_view_jfold by assumption. apply jfold_perm.
+  - apply Permutation_map. assumption.
+  - constructor; [apply Forall_forall; intros; apply nc_none_l | assumption].
+Qed.
+
+(* ------------------------------------------------------------------ the property's sentences *)
+
+(** "the result does not depend on the order in which environment variables are
+    enumerated" — nor on the iteration order of any Go map on the way *)
+Theorem env_order_independent :
+  forall sh sh' to_real pfx d f env env' tenv,
+    perm_fun sh -> perm_fun sh' -> Permutation env env' ->
+    domain to_real pfx d f env tenv ->
+    exists t t', load sh to_real false false pfx d (Some f) env = Ok t /\
+                 load sh' to_real false false pfx d (Some f) env' = Ok t' /\
+                 Tidy (Map t) /\ Tidy (Map t') /\
+                 forall p, view p (Map t) = view p (Map t').
+Proof.
+  intros sh sh' to_real pfx d f env env' tenv Hs Hs' P D.
+  destruct (domain_perm _ _ _ _ _ _ _ P D) as (tenv' & Pt & D').
+  destruct D as (H1 & H2 & H3 & H4). destruct D' as (H1' & H2' & H3' & H4').
+  destruct (load_meets_spec sh Hs to_real pfx d f env tenv H1 H2 H3 H4) as (t & Ht & Tt & Vt).
+  destruct (load_meets_spec sh' Hs' to_real pfx d f env' tenv' H1' H2' H3' H4') as (t' & Ht' & Tt' & Vt').
+  exists t, t'. splits; auto.
+  intro p. rewrite Vt, Vt'. unfold spec_view. f_equal. eapply env_view_perm; eassumption.
+Qed.
+
+Lemma strip_prefix_refl p : strip_prefix p p = Some [].
+Proof.
+  induction p as [|a p IH]; simpl; [reflexivity|].
+  assert (E : seg_eqb a a = true) by (destruct a; simpl; [apply String.eqb_refl | apply Nat.eqb_refl]).
+  rewrite E. assumption.
+Qed.
+
+Lemma jfold_leaf_stays w : forall L, Forall (nc (NLeaf w)) L -> jfold (NLeaf w) L = NLeaf w.
+Proof.
+  induction L as [|a r IH]; intro H; simpl; [reflexivity|].
+  apply Forall_cons_iff in H as [[H1 H2] H3].
+  destruct a; simpl in *; try discriminate; auto.
+Qed.
+
+Lemma env_view_leaf d f tenv e :
+  in_scope d f tenv -> In e tenv -> env_view tenv (fst e) = NLeaf (snd e).
+Proof.
+  intros S Hin. assert (N := in_scope_nc d f tenv (fst e) S).
+  rewrite env_view_jfold by assumption.
+  apply in_split in Hin as (l1 & l2 & ->).
+  assert (P : Permutation (l1 ++ e :: l2) (e :: l1 ++ l2)) by (apply Permutation_sym, Permutation_middle).
+  rewrite (jfold_perm _ _ (Permutation_map (contrib (fst e)) P)).
+  - simpl. assert (Ce : contrib (fst e) e = NLeaf (snd e)).
+    { unfold contrib. rewrite strip_prefix_refl. reflexivity. }
+    rewrite Ce. apply jfold_leaf_stays.
+    eapply PW_perm in N; [|exact nc_sym | apply Permutation_map; exact P].
+    simpl in N. rewrite Ce in N. apply PW_cons_iff in N. tauto.
+  - constructor; [apply Forall_forall; intros; apply nc_none_l | assumption].
+Qed.
+
+(** "where both define a value the environment wins for exactly that leaf":
+    every variable's value is what the result shows at the variable's path,
+    whatever file and defaults say there *)
+Theorem env_wins_per_leaf :
+  forall sh to_real pfx d f env tenv,
+    perm_fun sh -> domain to_real pfx d f env tenv ->
+    exists t, load sh to_real false false pfx d (Some f) env = Ok t /\
+              forall e, In e tenv -> view (fst e) (Map t) = NLeaf (snd e).
+Proof.
+  intros sh to_real pfx d f env tenv Hs (H1 & H2 & H3 & H4).
+  destruct (load_meets_spec sh Hs to_real pfx d f env tenv H1 H2 H3 H4) as (t & Ht & Tt & Vt).
+  exists t. split; [assumption|]. intros e Hin. rewrite Vt. unfold spec_view.
+  rewrite (env_view_leaf d f tenv e H2 Hin).
+  destruct (njoin (view (fst e) (Map d)) (view (fst e) (Map f))); reflexivity.
+Qed.
+
+(** "... for exactly that leaf; defaults fill what neither defines": where the
+    environment is silent the file's node shows, where both are silent the
+    default's *)
+Theorem defaults_fill :
+  forall sh to_real pfx d f env tenv,
+    perm_fun sh -> domain to_real pfx d f env tenv ->
+    exists t, load sh to_real false false pfx d (Some f) env = Ok t /\
+              forall p, env_view tenv p = NNone ->
+                        view p (Map t) = njoin (view p (Map d)) (view p (Map f)) /\
+                        (view p (Map f) = NNone -> view p (Map t) = view p (Map d)).
+Proof.
+  intros sh to_real pfx d f env tenv Hs (H1 & H2 & H3 & H4).
+  destruct (load_meets_spec sh Hs to_real pfx d f env tenv H1 H2 H3 H4) as (t & Ht & Tt & Vt).
+  exists t. split; [assumption|]. intros p He. rewrite Vt. unfold spec_view. rewrite He.
+  rewrite njoin_none_r. split; [reflexivity|]. intros ->. apply njoin_none_r.
+Qed.
+
+Lemma njoin_assoc_k a b c :
+  kcompat a b = true -> kcompat a c = true -> kcompat b c = true ->
+  njoin (njoin a b) c = njoin a (njoin b c).
+Proof.
+  destruct a, b, c; simpl; intros; try reflexivity; try discriminate.
+  rewrite Nat.max_assoc. reflexivity.
+Qed.
+
+(** file and environment are equivalent: for every way of giving a
+    configuration [c] partly in the file ([f]) and partly in the environment
+    ([env]) — "f and env together show c" — the result is the one of giving
+    all of [c] in the file *)
+Definition split_of (c f : list (key * cfg)) (tenv : list (path * string)) : Prop :=
+  forall p, njoin (view p (Map f)) (env_view tenv p) = view p (Map c).
+
+Theorem file_env_equivalent :
+  forall sh sh' to_real pfx d c f env tenv,
+    perm_fun sh -> perm_fun sh' ->
+    domain to_real pfx d f env tenv -> domain to_real pfx d c [] [] ->
+    split_of c f tenv ->
+    exists t t', load sh to_real false false pfx d (Some f) env = Ok t /\
+                 load sh' to_real false false pfx d (Some c) [] = Ok t' /\
+                 Tidy (Map t) /\ Tidy (Map t') /\
+                 forall p, view p (Map t) = view p (Map t').
+Proof.
+  intros sh sh' to_real pfx d c f env tenv Hs Hs' (H1 & H2 & H3 & H4) (G1 & G2 & G3 & G4) S.
+  destruct (load_meets_spec sh Hs to_real pfx d f env tenv H1 H2 H3 H4) as (t & Ht & Tt & Vt).
+  destruct (load_meets_spec sh' Hs' to_real pfx d c [] [] G1 G2 G3 G4) as (t' & Ht' & Tt' & Vt').
+  exists t, t'. splits; auto.
+  intro p. rewrite Vt, Vt'. unfold spec_view. simpl env_view. rewrite njoin_none_r.
+  rewrite <- (S p).
+  assert (N := in_scope_nc d f tenv p H2).
+  destruct H2 as (_ & _ & _ & C1 & C2 & _).
+  assert (PWn : PW nc (NNone :: map (contrib p) tenv)).
+  { constructor; [apply Forall_forall; intros; apply nc_none_l | assumption]. }
+  apply njoin_assoc_k; [apply C1 | |]; rewrite env_view_jfold by assumption; apply kcompat_jfold;
+    try apply kcompat_none_r; try assumption;
+    apply Forall_map; (eapply Forall_impl; [|exact C2]); intros e H; destruct (H p); assumption.
+Qed.
 
 (* ------------------------------------------------------------------ finding witnesses *)
+Open Scope string_scope.
 
 Definition tr_id (s : string) : cfg := Leaf s.
 
